@@ -623,7 +623,8 @@ AsyncLoopFrom(st, gv, fuel, blocked) ==
   ELSE LET ev == Head(st.queue)
            st0 == [st EXCEPT !.queue = Tail(@)]
        IN IF st0.rd > D.maxIter
-          THEN AsyncLoopFrom(Log([st0 EXCEPT !.rd = 0], L("cut_raise", "", "", {})), gv, fuel - 1, FALSE)
+          \* (no fuel for a dropped event: the harness counts on_event_received calls only)
+          THEN AsyncLoopFrom(Log([st0 EXCEPT !.rd = 0], L("cut_raise", "", "", {})), gv, fuel, FALSE)
           ELSE LET st1 == Log(st0, L("event", ev.type, "", {}))
                    before == st1.rd
                    st2 == ProcessEvent(st1, ev, gv, "async", TRUE)
